@@ -6,6 +6,7 @@ from .. import hgen
 from ..hbase import STUBS
 from ..hlib import c13 as L
 from .common import BASE_ASSUMPTIONS, ROOT, Cond, Spec
+from ..runner import innermost as U
 
 
 def build(tier):
@@ -27,8 +28,8 @@ def build(tier):
     S = aioftp.Server
     return Spec(
         pid="C13", source=src, conds=conds,
-        functions_encoded=[pathio.universal_exception, S.dispatcher, aioftp.PathConditions.__call__, S.build_mlsx_string, S.build_list_string, S.stor.__wrapped__.__wrapped__,
-                           S.retr.__wrapped__.__wrapped__.__wrapped__, S.list.__wrapped__.__wrapped__.__wrapped__, S.mlsd.__wrapped__.__wrapped__.__wrapped__, pathio.AsyncPathIOContext.__aexit__],
+        functions_encoded=[pathio.universal_exception, S.dispatcher, aioftp.PathConditions.__call__, S.build_mlsx_string, S.build_list_string, U(S.stor),
+                           U(S.retr), U(S.list), U(S.mlsd), pathio.AsyncPathIOContext.__aexit__],
         bounds={
             "commands": f"{list(L.CASES)} (stor_rest / retr_rest: preceded by a real REST 2), with and without a data connection present",
             "fault": f"the k-th storage-backend call made by the command (exists, is_dir, is_file, stat, open, seek, read, write, close, list iteration, mkdir, rmdir, unlink, rename) raises OSError, k symbolic in 1..{K}"
